@@ -17,7 +17,8 @@ def preambles(rng, tier):
             mode = rng.choice(["absent", "empty", "some", "full"])
             coll = None if mode == "absent" else histgen.gen_coll(rng, pools, mode)
             bp = histgen.gen_bp(rng, pools, rich=True, coll=coll, maxitems=rng.choice([1, 3, 10000, (1 << 64) - 1]),
-                                tps=rng.choice([1, 1000, 1000000, 10 ** 9]))
+                                tps=rng.choice([1, 1000, 1000000, 10 ** 9]),
+                                hints=histgen.gen_hints(rng, "wide") if rng.random() < 0.4 else None)
             if mode == "absent":
                 bp.pop("coll", None)
             bps.append(bp)
@@ -36,7 +37,7 @@ def run(tier):
     chk = Check("C09", tier, "model_checking")
     chk.rule = ("one execution = one generated FilePreamble (versions, private version present/absent, 1..8 parameter sets, "
                 "every optional member subset, empty/partial/full collection parameters, lists of length 0..n with unassigned "
-                "codes, full-width integers) written with one block and read back; TLC compares the independent reading of "
+                "codes, full-width integers, storage hints over their whole declared width) written with one block and read back; TLC compares the independent reading of "
                 "the bytes and the library reader's result with the value supplied, member for member")
     chk.assumptions = ["TLC + CommunityModules", "driver JSON<->struct conversion (harness/records.h)"]
     rng = rng_for(chk, 9)
